@@ -491,7 +491,8 @@ class C10:
                     "sample": {"kind": "hashers", "size": case["size"], "piece_length": pl,
                                "compared": names, "root": res.get("HasherV2", (b"",))[0],
                                "padding_file": res.get("HasherHybrid", (0, 0, 0, None))[3], "violations": len(viol)}}
-        pair = {"v2pair": ("Assembler2", "TorrentFileV2"), "hybridpair": ("Assembler3", "TorrentFileHybrid")}[case["route"]]
+        pair = {"v2pair": ("Assembler2", "TorrentFileV2", "cli2"),
+                "hybridpair": ("Assembler3", "TorrentFileHybrid", "cli3")}[case["route"]]
         root, out, reach = _setup(case, scratch, ["TorrentAssembler._traverse", "TorrentFileV2._traverse",
                                                   "TorrentFileHybrid._traverse"])
         raws = []
@@ -502,10 +503,12 @@ class C10:
                 viol.append(oracles.V("create-raised", route=r, exc=oc.excname(), tb=oc.tb[-1200:]))
             else:
                 raws.append(mask_creation_date(oc.raw))
-        if len(raws) == 2:
+        if len(raws) == 3:
             counters["creator_pairs_v2" if case["route"] == "v2pair" else "creator_pairs_hybrid"] = 1
-            if raws[0] != raws[1]:
-                viol.append(oracles.V("creator-pair-differs", pair=pair, len_a=len(raws[0]), len_b=len(raws[1])))
+            for k in (1, 2):
+                if raws[0] != raws[k]:
+                    viol.append(oracles.V("creator-pair-differs", pair=[pair[0], pair[k]], len_a=len(raws[0]),
+                                          len_b=len(raws[k])))
         classes = sorted({_v2_file_class(f[1], pl) for f in case["tree"]["files"]})
         return {"violations": viol, "sig": ["creators", case["route"], classes, case["pl_exp"], sorted(case["opts"])],
                 "nontrivial": any(c != "bpow2/ppow2/full/" for c in classes), "counters": counters,
